@@ -2,6 +2,7 @@ package main
 
 import (
 	"fmt"
+	"go/types"
 	"strings"
 
 	"golang.org/x/tools/go/ssa"
@@ -361,5 +362,51 @@ func runC15(r *Run) {
 			return ok && !constIsNil(asConst(retOperand(ret, 0)))
 		}, cut, func(in ssa.Instruction) bool { return isCallTo(in, nameHasSuffix("session.Session).isAbsExpired")) })
 		r.check(len(cut) > 0 && hit == nil, "GetByID:absolute-deadline-tested", r.fpos(gb), "with AbsoluteTimeout on, every returned session passed isAbsExpired", "GetByID can return a session past its absolute deadline")
+	})
+
+	r.rule("R7", "the session id taken from the request is a private copy (E3): it outlives the request as a storage key", func() {
+		f := r.Fn(sessPkg, "(*Store).getSessionID")
+		n := 0
+		for _, in := range instrsWhereOne(f, isReturn) {
+			ret := in.(*ssa.Return)
+			var check func(v ssa.Value, seen map[ssa.Value]bool) (bool, string)
+			check = func(v ssa.Value, seen map[ssa.Value]bool) (bool, string) {
+				if seen[v] {
+					return true, ""
+				}
+				seen[v] = true
+				if s, ok := constString(asConst(v)); ok && s == "" {
+					return true, ""
+				}
+				switch x := v.(type) {
+				case *ssa.Phi:
+					for _, e := range x.Edges {
+						if ok, why := check(e, seen); !ok {
+							return false, why
+						}
+					}
+					return true, ""
+				case *ssa.Convert:
+					if sl, ok := x.X.Type().Underlying().(*types.Slice); ok {
+						if b, ok := sl.Elem().Underlying().(*types.Basic); ok && b.Kind() == types.Byte {
+							return true, "" // string([]byte) copies
+						}
+					}
+					return check(x.X, seen)
+				case *ssa.Call:
+					switch calleeName(&x.Call) {
+					case "github.com/gofiber/utils/v2.CopyString", "strings.Clone":
+						return true, ""
+					}
+					return false, "the result of " + short(calleeName(&x.Call)) + " (a view of request memory unless Immutable is set)"
+				}
+				return false, "a value that is not copied (" + v.Name() + ")"
+			}
+			n++
+			ok, why := check(retOperand(ret, 0), map[ssa.Value]bool{})
+			r.check(ok, fmt.Sprintf("getSessionID:return#%d:private-copy", n), r.pos(in), "the id is \"\", a string([]byte) conversion or an explicit copy",
+				"the session id handed to the store is "+why+": saved as a map/storage key it is rewritten when the connection's buffers are reused — the owner loses the session and a later request can be given it")
+		}
+		r.atLeast("returns of getSessionID", n, 2)
 	})
 }
